@@ -33,6 +33,8 @@ static const char* names[] = {
     "cap 2: retire under an open region, collector destroyed instead of stop()",
     "cap 4: stop() with nothing retired; stop() twice",
     "cap 2: two reclaimers, the first guarded by an open region, the second not",
+    "cap 2: retire under an open region; the reader enters and leaves a nested region afterwards (thread-local style)",
+    "cap 2: retire under an open region; the reader enters and leaves a nested region afterwards (accessor style)",
 };
 int harness_configs() { return sizeof(names) / sizeof(names[0]); }
 const char* harness_config_name(int c) { return names[c]; }
@@ -51,8 +53,8 @@ void harness_main(int cfg) {
   bbmc::sleeps_advance_clock(false);
   Counters c; bbmc::background(&c, sizeof c);
   switch (cfg) {
-    case 0: case 1: case 3: case 5: {
-      bool accessor = (cfg == 1);
+    case 0: case 1: case 3: case 5: case 6: case 7: {
+      bool accessor = (cfg == 1 || cfg == 7); bool nested = (cfg == 6 || cfg == 7);
       std::atomic<int> locked{0}, retired{0};
       {
         GC gc; gc.set_queue_capacity(2); gc.start();
@@ -62,6 +64,7 @@ void harness_main(int cfg) {
           c.region_open.store(1, std::memory_order_relaxed);
           locked.store(1, std::memory_order_release);
           while (retired.load(std::memory_order_acquire) == 0) sched_yield();
+          if (nested) { if (accessor) { a.lock(); a.unlock(); } else { gc.epoch().lock(); gc.epoch().unlock(); } }   // the outer region is still open
           sched_yield();  // the region stays open for a while after the retirement
           c.region_open.store(0, std::memory_order_relaxed);
           if (accessor) a.unlock(); else gc.epoch().unlock();
